@@ -124,9 +124,23 @@ def rbCls (inp : RbInput) (rs : List Result) : String :=
     | some (.stopped .overlong ..) => "OVERLONG"
     | none => "nocall"
   let nshort := (s.filter (fun | .readBytes _ => true | _ => false)).length
+  -- value returned by the successful open (first one of the script)
+  let fdc := match s.findSome? (fun | .openOk f => some f | _ => none) with
+    | none => "none"
+    | some f => if f ≤ 2 then s!"{f}" else if f < 1024 then "small" else if f < 2147483647 then "large" else "INT_MAX"
+  -- a short read ended exactly at / next to a multiple of the chunk (requests above 1 MiB only)
+  let edge := if inp.xlens.foldl max 0 ≤ chunk then "" else
+    let ends := (s.foldl (fun (acc : Nat × List Nat) o =>
+      match o with | .readBytes bs => (acc.1 + bs.length, (acc.1 + bs.length) :: acc.2) | _ => acc) (0, [])).2
+    (if ends.any (fun e => e % chunk = chunk - 1) then "-" else "") ++ (if ends.any (fun e => e % chunk = 0 && e > 0) then "=" else "") ++
+      (if ends.any (fun e => e % chunk = 1 && e > 1) then "+" else "")
+  if inp.xlens.length ≥ 2 then
+    s!"calls={min inp.xlens.length 3},max={rbSizeCls (inp.xlens.foldl max 0)},fd={fdc}," ++
+      has (· == .openFail) "F" ++ has (fun o => o == .readErr || o == .readZero) "R" ++ (if edge = "" then "" else s!"chunk{edge}") ++ "," ++ fin
+  else
   s!"calls={inp.xlens.length},max={rbSizeCls (inp.xlens.foldl max 0)}," ++
     has (· == .openFail) "F" ++ has (· == .readErr) "E" ++ has (· == .readZero) "Z" ++
-    (if nshort ≥ 2 then "S" else "") ++ "," ++ fin
+    (if nshort ≥ 2 then "S" else "") ++ (if edge = "" then "" else s!"chunk{edge}") ++ "," ++ fin
 
 /-! ### decoding the implementation's answer -/
 
